@@ -71,6 +71,7 @@ int verif_command_giver_stack_depth(void);
 int verif_num_objects_this_thread(void);
 void *verif_restrict_destruct(void);
 int verif_error_state(void);
+int verif_live_sentences(void);
 array_t *get_heart_beats(void);
 ssize_t __real_write(int, const void *, size_t);
 time_t __real_time(time_t *);
@@ -272,7 +273,7 @@ static void project() {
   if (g_proj.count("stats")) {
     snprintf(b, sizeof b, "\"e\":\"Stats\",\"arrays\":%d,\"asize\":%ld,\"maps\":%d,\"nodes\":%d,\"objs\":%ld,\"progs\":%ld,\"strs\":%d,\"astrs\":%d,\"sent\":%d",
              num_arrays, (long)total_array_size, num_mappings, total_mapping_nodes, (long)tot_alloc_object,
-             (long)total_num_prog_blocks, num_distinct_strings, allocd_strings, tot_alloc_sentence);
+             (long)total_num_prog_blocks, num_distinct_strings, allocd_strings, verif_live_sentences());
     emit(b);
   }
 }
